@@ -1,3 +1,4 @@
+import Sparrow.Proofs.SourceGlueEquiv
 import Sparrow.Proofs.DirectivityLemmas
 /-
   C20 — Source directivity is applied per direction in the source's own frame.
@@ -63,3 +64,25 @@ theorem no_directivity_identity (e0 : Nat → Nat → ℝ) (j d : Nat) (v : ℝ)
   Sparrow.no_directivity_identity e0 j d v
 
 end Sparrow.Props.C20
+
+namespace Sparrow.Props.C20.SourceGlue
+open Sparrow Sparrow.Generated.SourceGlue Sparrow.Generated.BakeKernels Sparrow.Generated.LegKernels
+
+/-- **directivity** (C20, the glue's part): a `SoundSource` with a directivity stores, for every patch, outgoing
+    direction and band, the energy of the same source without directivity times its directivity towards that patch
+    at that band's frequency. -/
+theorem initSourceEnergy_directivity
+    (vis : (Nat → ℝ) → (Nat → Nat → ℝ) → (Nat → Nat → ℝ) → (Nat → Nat → Nat → ℝ) → Nat → Bool)
+    (pt : (Nat → ℝ) → (Nat → Nat → ℝ) → ℝ) (g : (Nat → Nat → ℝ) → ℝ → Nat → ℝ)
+    (P B W T nIn D : Nat) (src : Nat → ℝ) (wall : Nat → Nat) (dirsIn dirsOut : Nat → Nat → Nat → ℝ)
+    (brdf : Nat → Nat → Nat → Nat → ℝ) (bidx : Nat → Nat) (pc : Nat → Nat → ℝ) (wp : Nat → Nat → Nat → ℝ)
+    (wn : Nat → Nat → ℝ) (pp : Nat → Nat → Nat → ℝ) (att freq : Nat → ℝ)
+    (s0 s1 s2 s3 s4 s5 s6 s7 s8 s9 s10 s11 s12 : Nat)
+    (p d b : Nat) (hp : p < P) (hb : b < B) :
+    (initSourceEnergy vis pt true (some g) 3 src s0 wall W nIn 3 dirsIn s1 D s2 dirsOut T nIn D B brdf s3 bidx P 3 pc
+      s4 s5 s6 wp s7 s8 wn s9 s10 s11 pp s12 att B freq B).2.1 p d b =
+    (initSourceEnergy vis pt true none 3 src s0 wall W nIn 3 dirsIn s1 D s2 dirsOut T nIn D B brdf s3 bidx P 3 pc
+      s4 s5 s6 wp s7 s8 wn s9 s10 s11 pp s12 att B freq B).2.1 p d b * g pc (freq b) p :=
+  Sparrow.initSourceEnergy_directivity vis pt g P B W T nIn D src wall dirsIn dirsOut brdf bidx pc wp wn pp att freq s0 s1 s2 s3 s4 s5 s6 s7 s8 s9 s10 s11 s12 p d b hp hb
+
+end Sparrow.Props.C20.SourceGlue
